@@ -505,11 +505,11 @@ func (d *db) applyPut(batch WriteBatch, notifications *notifications, putReq *pr
 	var se *proto.StorageEntry
 	var err error
 	var newKey string
+	var sequencePrefixKey string
 	if len(putReq.GetSequenceKeyDelta()) > 0 {
-		prefixKey := putReq.Key
+		sequencePrefixKey = putReq.Key
 		newKey, err = generateUniqueKeyFromSequences(batch, putReq)
 		putReq.Key = newKey
-		d.sequenceWaiterTracker.SequenceUpdated(prefixKey, newKey)
 	} else if !internal {
 		se, err = checkExpectedVersionId(batch, putReq.Key, putReq.ExpectedVersionId)
 	}
@@ -573,6 +573,13 @@ func (d *db) applyPut(batch WriteBatch, notifications *notifications, putReq *pr
 
 	if notifications != nil {
 		notifications.Modified(putReq.Key, se.VersionId, se.ModificationsCount)
+	}
+
+	if newKey != "" {
+		// The subscribers of the sequence are only told about keys of records that are
+		// really written: not when the key could not be generated, nor when the put
+		// was rejected (eg: by the session checks)
+		d.sequenceWaiterTracker.SequenceUpdated(sequencePrefixKey, newKey)
 	}
 
 	version := &proto.Version{
